@@ -246,6 +246,9 @@ impl<F: Future> Stream for FuturesUnordered<F> {
             match poll {
                 Poll::Ready(Some(x)) => {
                     *rem -= 1;
+                    // start with the next group next time, so that a group that always has
+                    // something ready cannot starve the others
+                    *poll_next += 1;
                     return Poll::Ready(Some(x));
                 }
                 Poll::Ready(None) => {
@@ -274,6 +277,11 @@ impl<F: Future> Stream for FuturesUnordered<F> {
                     *poll_next += 1;
                 }
             }
+        }
+        if *rem == 0 {
+            // every group turned out to be empty (the last one may have been rotated to the
+            // back and not been visited again)
+            return Poll::Ready(None);
         }
         Poll::Pending
     }
